@@ -9,7 +9,8 @@ KINDS = ["instance", "parametric_instance", "solution", "sample_set"]
 OMMX_TYPE = "application/org.ommx.v1.artifact"
 
 WORDS = ["knapsack", "x", "y[1]", "Jij Inc.", "MIPLIB 2017", "a b", "q\"uote", "back\\slash", "café",
-         "日本", "co:lon", "semi;colon", "{json}", "tab\there", "0", "-1", "CC-BY-4.0", "MIT", ""]
+         "日本", "co:lon", "semi;colon", "{json}", "tab\there", "0", "-1", "CC-BY-4.0", "MIT", "",
+         " lead", "trail ", "  both  ", "new\nline", " "]
 NAMES = ["Alice", "Bob B.", "C. Carol", "d@e.org", "山田", "O'Neil", "x"]
 
 
@@ -163,6 +164,10 @@ def rand_authors(rng, stream):
 
 
 def user_key(rng):
+    if rng.random() < 0.3:
+        # set_other does not check the key: keys outside org.ommx.* (another vendor, an OCI key, no dots, empty)
+        return rng.choice(["com.example.note", "org.opencontainers.image.title", "note", "", "org.ommx.v2.instance.title",
+                           "org.ommx.v1.other-kind.title", "ORG.OMMX.USER.X"])
     return "org.ommx.user." + rng.choice(["note", "run-id", "x.y", "備考", "UPPER", "a b"])
 
 
